@@ -14,23 +14,34 @@ def install(w):
 
     w.contract(f"{CV}.coerce_input_value", params={"input_value": "dyn", "type_": "ty"},
                returns="dyn",
-               requires=["InputTy(type_)", "NoObj(type_)"],
-               # both members of the pair are verified against the same Valid(v, T)
-               ensures=["is_undefined(result) == (not Valid(input_value, type_))",
-                        "implies(not is_undefined(result), Conf(result, type_))",
-                        "implies(not is_none(input_value) and not is_undefined(input_value),"
+               requires=["InputTy(type_)"],
+               # both members of the pair are verified against the same Valid(v, T); stage 1: the
+               # equivalences are claimed for types without input objects (NoObj), the input-object
+               # branch is verified for its exception frame and its calls only
+               ensures=["implies(NoObj(type_), is_undefined(result) == (not Valid(input_value, type_)))",
+                        "implies(NoObj(type_) and not is_undefined(result), Conf(result, type_))",
+                        "implies(NoObj(type_) and not is_none(input_value) and not is_undefined(input_value),"
                         " not is_none(result))"],
-               raises=[], modifies=[], locals={"coerced_list": ("list", "dyn")},
+               # a user supplied out_type may raise (A5)
+               raises=["Exception"], modifies=[], locals={"coerced_list": ("list", "dyn")},
+               valid_schema=True, decreases_when="not kind_is(type_, 'INPUT_OBJECT')",
                call_pre={
                    "coerce_input_value#1": ["arg_type_ is of(type_)", "same(arg_input_value, input_value)"],
                    "coerce_input_value#2": ["arg_type_ is of(type_)", "same(arg_input_value, input_value)"],
                    "coerce_input_value#3": ["arg_type_ is of(type_)", "same(arg_input_value, item_value)"],
                    "coerce_input_value#4": ["arg_type_ is field.type"]},
                decreases="ty_rank(type_)",
-               loops={1: {"invariant": ["ListOk(input_value, item_type, _i)",
-                                        "forall(j, 0, _i, Conf(coerced_list[j], item_type))",
-                                        "len(coerced_list) == _i"]}},
-               props={"C15"})
+               loops={1: {"invariant": ["implies(NoObj(type_), ListOk(input_value, item_type, _i))",
+                                        "implies(NoObj(type_), forall(j, 0, _i, Conf(coerced_list[j], item_type)))",
+                                        "len(coerced_list) == _i"]},
+                      # input-object branch: a field without a (defined) value makes the value invalid
+                      # exactly when the field is required
+                      3: {"return_post": [
+                              "implies(is_undefined(field_value) and is_undefined(result),"
+                              " RequiredField(field))"],
+                          "step_post": [
+                              "implies(is_undefined(field_value), not RequiredField(field))"]}},
+               props={"C15", "C13", "C02"})
 
     # ---- validation side: ghost counter 'errs' of on_error calls -----------------------------------
     w.alias("Path", "graphql.pyutils.path.Path")
@@ -45,20 +56,40 @@ def install(w):
     w.contract(f"{VV}.validate_input_value_impl",
                params={"input_value": "dyn", "type_": "ty", "on_error": CB,
                        "hide_suggestions": "bool", "path": "opt:ntuple:Path"},
-               requires=["InputTy(type_)", "NoObj(type_)"],
+               requires=["InputTy(type_)"],
                ensures=["ghost('errs') >= old(ghost('errs'))",
-                        "(ghost('errs') > old(ghost('errs'))) == (not Valid(input_value, type_))"],
+                        "implies(NoObj(type_),"
+                        " (ghost('errs') > old(ghost('errs'))) == (not Valid(input_value, type_)))"],
                raises=["Exception"], ghost_modifies=["errs"], modifies=[],
+               ghost_calls=["val_rec"],     # recursive calls made by one activation
+               valid_schema=True, decreases_when="not kind_is(type_, 'INPUT_OBJECT')",
+               # field_name was taken from input_value.items() a few lines above, so this lookup
+               # cannot fail; which keys a dynamic dict holds is not tracked by the engine
+               waive=["from `input_value[field_name]`"],
+               loop_all=["ghost('errs') >= old(ghost('errs'))"],
                call_pre={
                    "validate_input_value_impl#1": ["arg_type_ is of(type_)", "same(arg_input_value, input_value)"],
                    "validate_input_value_impl#2": ["arg_type_ is of(type_)", "same(arg_input_value, input_value)"],
                    "validate_input_value_impl#3": ["arg_type_ is of(type_)", "same(arg_input_value, item_value)"],
-                   "validate_input_value_impl#4": ["arg_type_ is field.type"]},
+                   "validate_input_value_impl#4": ["arg_type_ is field.type",
+                                                   "same(arg_input_value, field_value)"]},
                decreases="ty_rank(type_)",
                loops={1: {"invariant": [
                    "ghost('errs') >= old(ghost('errs'))",
-                   "(ghost('errs') > old(ghost('errs'))) == (not ListOk(input_value, item_type, _i))"]}},
-               props={"C15"})
+                   "implies(NoObj(type_),"
+                   " (ghost('errs') > old(ghost('errs'))) == (not ListOk(input_value, item_type, _i)))"]},
+                      # input-object branch: a field without a (defined) value is reported exactly
+                      # when it is required
+                      2: {"iter_post": [
+                          "implies(is_undefined(field_value) and RequiredField(field),"
+                          " ghost('errs') > at_iter_start(ghost('errs')))",
+                          "implies(is_undefined(field_value) and not RequiredField(field),"
+                          " ghost('errs') == at_iter_start(ghost('errs')))",
+                          # every field that has a value - None included - is validated against
+                          # the field's type (a null for a non-null field with a default is invalid)
+                          "implies(not is_undefined(field_value),"
+                          " ghost('val_rec') == at_iter_start(ghost('val_rec')) + 1)"]}},
+               props={"C15", "C13", "C02", "C20"})
 
 
 def install_variables(w):
